@@ -90,6 +90,27 @@ def check_one(rep: common.Report, label: str, tp: Any, expected: Dict[bool, set]
             for r in vrefs:
                 if not r.startswith(prefix) or r[len(prefix):] not in vs.get(dkey, {}):
                     rep.violation(f"{label}: {vname} output has dangling or foreign reference {r}", dict(info, version=vname, converted=vs))
+        # an EXPLICIT all_refs wins over the default of the version (OpenAPI versions default to all_refs=True): the
+        # named types referenced outside the definitions are the same in every dialect
+        body_refs: List[str] = []
+        collect_refs({k: v for k, v in schema.items() if k != "$defs"}, body_refs)
+        want_names = {r[len("#/$defs/"):] for r in body_refs}
+        for ver in (JsonSchemaVersion.OPEN_API_3_1, JsonSchemaVersion.OPEN_API_3_0):
+            try:
+                oas = fn(tp, all_refs=all_refs, version=ver)
+                oas_defs = definitions_schema(**{key: [tp]}, all_refs=all_refs, version=ver)
+            except Exception as exc:
+                rep.violation(f"{label}: schema generation raised {type(exc).__name__}: {exc} (all_refs={all_refs}, OpenAPI)", {"type": label})
+                continue
+            orefs: List[str] = []
+            collect_refs({k: v for k, v in oas.items() if k not in ("$defs", "definitions")}, orefs)
+            got_names = {r.rsplit("/", 1)[-1] for r in orefs}
+            if got_names != want_names or any(not r.startswith("#/components/schemas/") for r in orefs):
+                rep.violation(f"{label} ({key}, all_refs={all_refs} given explicitly, OpenAPI): references {sorted(orefs)} but the draft 2020-12 "
+                              f"schema of the same call references {sorted(want_names)}", dict(info, openapi=oas))
+            if set(oas_defs) != expected[all_refs]:
+                rep.violation(f"{label} ({key}, all_refs={all_refs} given explicitly, OpenAPI): definitions_schema = {sorted(oas_defs)} but the "
+                              f"model of the counting pass extracts {sorted(expected[all_refs])}", dict(info, openapi_definitions=oas_defs))
         crefs: List[str] = []
         collect_refs(custom, crefs)
         if "$defs" in custom or any(not r.startswith("http://x/") for r in crefs):
@@ -117,6 +138,26 @@ class Holder:
     x: A
     y: B
     xs: List[A]
+
+# a named type built on top of another named type (nested Annotated aliases, each with its own type_name)
+from apischema import schema as _schema
+NInner = Annotated[int, _schema(min=0), type_name("NInner")]
+NOuter = Annotated[NInner, _schema(max=10), type_name("NOuter")]
+
+@dataclass
+class InnerFirst:
+    a: NInner
+    b: NOuter
+    c: List[NOuter]
+
+@dataclass
+class OuterOnly:
+    b: NOuter
+    c: List[NOuter]
+
+@dataclass
+class OuterOnce:
+    b: NOuter
 
 @type_name(None)
 @dataclass
@@ -419,6 +460,24 @@ def naming_cases(rep: common.Report) -> int:
                 rep.violation(f"{fn.__name__}(HolderSamePages): $defs = {sorted(got)}, expected ['Page']", {})
         except Exception as exc:
             rep.violation(f"{fn.__name__}(HolderSamePages) raised {type(exc).__name__}: {exc}", {})
+        # nested named aliases: all_refs=True extracts every named type; all_refs=False those used more than once
+        # (NInner is used once by the definition of NOuter, plus once per direct use)
+        for tp, want_f, want_t in ((mod.InnerFirst, {"NInner", "NOuter"}, {"InnerFirst", "NInner", "NOuter"}),
+                                   (mod.OuterOnly, {"NOuter"}, {"OuterOnly", "NInner", "NOuter"}),
+                                   (mod.OuterOnce, set(), {"OuterOnce", "NInner", "NOuter"})):
+            for all_refs, want in ((False, want_f), (True, want_t)):
+                n += 1
+                try:
+                    sch = fn(tp, all_refs=all_refs)
+                except Exception as exc:
+                    rep.violation(f"{fn.__name__}({tp.__name__}, all_refs={all_refs}) raised {type(exc).__name__}: {exc}", {})
+                    continue
+                got = set(sch.get("$defs", {}))
+                refs2: List[str] = []
+                collect_refs(sch, refs2)
+                if got != want or any(r[len("#/$defs/"):] not in got for r in refs2):
+                    rep.violation(f"{fn.__name__}({tp.__name__}, all_refs={all_refs}): $defs = {sorted(got)}, references {sorted(set(refs2))}; nested named "
+                                  f"aliases NOuter over NInner must give {sorted(want)}", {"schema": sch})
         for tp, want in ((mod.UsesAnon, set()), (mod.UsesOrig, {"Renamed"}), (mod.UsesFactory, {"Fac_ByFactory"})):
             n += 1
             got = set(fn(tp).get("$defs", {}))
